@@ -9,10 +9,11 @@ use rubato::{
     SincFixedIn, SincFixedOut, SincInterpolationType,
 };
 
-/// One call on the 2-channel instance `$m` and on the twins `$s0`, `$s1`.
+/// One call on the 2-channel instance `$m` and on ONE single-channel twin `$s` that stands for
+/// channel `$c` (concrete per harness; the other channel has its own harness).
 /// `$data`: sym = symbolic finite samples, line = two distinct index lines.
 macro_rules! multi_vs_single {
-    ($nd:ident, $m:ident, $s0:ident, $s1:ident, $T:ty, $MI:expr, $MO:expr, $data:ident) => {{
+    ($nd:ident, $m:ident, $s:ident, $c:expr, $T:ty, $MI:expr, $MO:expr, $data:ident) => {{
         let use_mask = $nd.bool();
         let m0 = $nd.bool();
         let m1 = $nd.bool();
@@ -21,7 +22,7 @@ macro_rules! multi_vs_single {
         let act0 = !use_mask || m0;
         let act1 = !use_mask || m1;
         let n = $m.input_frames_next();
-        check!(n == $s0.input_frames_next() && n == $s1.input_frames_next(), "C11.counts_next[base]");
+        check!(n == $s.input_frames_next(), "C11.counts_next[base]");
         $nd.assume(n <= $MI);
         let mut x0 = [0.0 as $T; $MI];
         let mut x1 = [0.0 as $T; $MI];
@@ -29,36 +30,36 @@ macro_rules! multi_vs_single {
         let sent = SENT as $T;
         let mut o0 = [sent; $MO];
         let mut o1 = [sent; $MO];
-        let mut p0 = [sent; $MO];
-        let mut p1 = [sent; $MO];
+        let mut p = [sent; $MO];
         // inactive channels are passed EMPTY input slices
         let l0 = if act0 { n } else { 0 };
         let l1 = if act1 { n } else { 0 };
         let rm = $m.process_into_buffer(&[&x0[..l0], &x1[..l1]], &mut [&mut o0[..], &mut o1[..]], mask);
-        let r0 = $s0.process_into_buffer(&[&x0[..n]], &mut [&mut p0[..]], None);
-        let r1 = $s1.process_into_buffer(&[&x1[..n]], &mut [&mut p1[..]], None);
-        match (rm, r0, r1) {
-            (Ok(cm), Ok(c0), Ok(c1)) => {
-                check!(cm == c0 && cm == c1, "C11.mask_transparent_counts[base]");
-                let mut eq0 = true;
-                let mut eq1 = true;
+        let rs = if $c == 0 { $s.process_into_buffer(&[&x0[..n]], &mut [&mut p[..]], None) }
+                 else { $s.process_into_buffer(&[&x1[..n]], &mut [&mut p[..]], None) };
+        match (rm, rs) {
+            (Ok(cm), Ok(cs)) => {
+                check!(cm == cs, "C11.mask_transparent_counts[base]");
+                let mut eqc = true;
                 let mut clean0 = true;
                 let mut clean1 = true;
                 unroll32!(i, $MO, {
-                    if o0[i].to_bits() != p0[i].to_bits() { eq0 = false; }
-                    if o1[i].to_bits() != p1[i].to_bits() { eq1 = false; }
+                    let oc = if $c == 0 { o0[i] } else { o1[i] };
+                    if oc.to_bits() != p[i].to_bits() { eqc = false; }
                     if o0[i].to_bits() != sent.to_bits() { clean0 = false; }
                     if o1[i].to_bits() != sent.to_bits() { clean1 = false; }
                 });
-                if act0 { check!(eq0, "C11.channel_equals_single[base]"); } else { check!(clean0, "C11.masked_untouched[base]"); }
-                if act1 { check!(eq1, "C11.channel_equals_single[base]"); } else { check!(clean1, "C11.masked_untouched[base]"); }
+                let actc = if $c == 0 { act0 } else { act1 };
+                if actc { check!(eqc, "C11.channel_equals_single[base]"); }
+                if !act0 { check!(clean0, "C11.masked_untouched[base]"); }
+                if !act1 { check!(clean1, "C11.masked_untouched[base]"); }
                 cover!(cm.1 > 0 && act0 && act1, "both channels active, frames produced");
                 cover!(use_mask && !m0 && !m1, "all-false mask");
-                cover!(use_mask && m0 && !m1 && cm.1 > 0, "second channel masked");
+                cover!(use_mask && m0 != m1 && cm.1 > 0, "exactly one channel masked");
             }
             _ => { check!(false, "C11.ok[base]"); }
         }
-        check!($m.input_frames_next() == $s0.input_frames_next() && $m.output_frames_next() == $s0.output_frames_next(),
+        check!($m.input_frames_next() == $s.input_frames_next() && $m.output_frames_next() == $s.output_frames_next(),
             "C11.state_counts[base]");
     }};
     (@fill $nd:ident, $T:ty, $MI:expr, $x0:ident, $x1:ident, sym) => {
@@ -78,84 +79,104 @@ macro_rules! multi_vs_single {
 
 harnesses! {
     #[kani::unwind(10)]
-    fn c11_ffo_sym(nd) {
+    fn c11_ffo_ch1(nd) {
         let mk = |c| FastFixedOut::<f64>::new(1.0, 1.5, PolynomialDegree::Nearest, 6, c).unwrap();
-        let (mut m, mut s0, mut s1) = (mk(2), mk(1), mk(1));
-        multi_vs_single!(nd, m, s0, s1, f64, 10, 6, sym);
-        forget(m); forget(s0); forget(s1);
+        let (mut m, mut s) = (mk(2), mk(1));
+        multi_vs_single!(nd, m, s, 1, f64, 10, 6, line);
+        forget(m); forget(s);
     }
     #[kani::unwind(10)]
-    fn c11_ffo_linear_line(nd) {
+    fn c11_ffo_ch0_linear(nd) {
         let mk = |c| FastFixedOut::<f32>::new(0.75, 1.5, PolynomialDegree::Linear, 5, c).unwrap();
-        let (mut m, mut s0, mut s1) = (mk(2), mk(1), mk(1));
-        multi_vs_single!(nd, m, s0, s1, f32, 11, 5, line);
-        forget(m); forget(s0); forget(s1);
+        let (mut m, mut s) = (mk(2), mk(1));
+        multi_vs_single!(nd, m, s, 0, f32, 11, 5, line);
+        forget(m); forget(s);
     }
-    #[kani::unwind(10)]
-    fn c11_sfo_sym(nd) {
+    #[kani::unwind(8)]
+    fn c11_sfo_ch1_sym(nd) {
         probe::reset_flags();
-        let mk = |c| SincFixedOut::<f64>::new_with_interpolator(1.0, 1.5, SincInterpolationType::Nearest, probe::boxed64(2, 1), 4, c).unwrap();
-        let (mut m, mut s0, mut s1) = (mk(2), mk(1), mk(1));
-        multi_vs_single!(nd, m, s0, s1, f64, 5, 4, sym);
-        forget(m); forget(s0); forget(s1);
+        let mk = |c| SincFixedOut::<f64>::new_with_interpolator(1.0, 1.5, SincInterpolationType::Nearest, probe::boxed64(2, 1), 2, c).unwrap();
+        let (mut m, mut s) = (mk(2), mk(1));
+        multi_vs_single!(nd, m, s, 1, f64, 3, 2, sym);
+        forget(m); forget(s);
     }
-    #[kani::unwind(20)]
-    fn c11_sfi_sym(nd) {
+    #[kani::unwind(8)]
+    fn c11_sfo_ch0_sym(nd) {
         probe::reset_flags();
-        let mk = |c| SincFixedIn::<f64>::new_with_interpolator(1.0, 1.0, SincInterpolationType::Nearest, probe::boxed64(2, 1), 6, c).unwrap();
-        let (mut m, mut s0, mut s1) = (mk(2), mk(1), mk(1));
-        multi_vs_single!(nd, m, s0, s1, f64, 6, 16, sym);
-        forget(m); forget(s0); forget(s1);
+        let mk = |c| SincFixedOut::<f64>::new_with_interpolator(1.0, 1.5, SincInterpolationType::Nearest, probe::boxed64(2, 1), 2, c).unwrap();
+        let (mut m, mut s) = (mk(2), mk(1));
+        multi_vs_single!(nd, m, s, 0, f64, 3, 2, sym);
+        forget(m); forget(s);
+    }
+    #[kani::unwind(18)]
+    fn c11_sfi_ch1_sym(nd) {
+        probe::reset_flags();
+        let mk = |c| SincFixedIn::<f64>::new_with_interpolator(1.0, 1.0, SincInterpolationType::Nearest, probe::boxed64(2, 1), 5, c).unwrap();
+        let (mut m, mut s) = (mk(2), mk(1));
+        multi_vs_single!(nd, m, s, 1, f64, 5, 15, sym);
+        forget(m); forget(s);
     }
     #[kani::unwind(26)]
-    fn c11_ffi_line(nd) {
-        let mk = |c| FastFixedIn::<f64>::new(1.0, 1.0, PolynomialDegree::Linear, 12, c).unwrap();
-        let (mut m, mut s0, mut s1) = (mk(2), mk(1), mk(1));
-        multi_vs_single!(nd, m, s0, s1, f64, 12, 22, line);
-        forget(m); forget(s0); forget(s1);
+    fn c11_ffi_ch1_line(nd) {
+        let mk = |c| FastFixedIn::<f64>::new(1.0, 1.0, PolynomialDegree::Nearest, 12, c).unwrap();
+        let (mut m, mut s) = (mk(2), mk(1));
+        multi_vs_single!(nd, m, s, 1, f64, 12, 22, line);
+        forget(m); forget(s);
     }
     #[kani::unwind(10)]
     #[kani::stub(realfft::RealFftPlanner::<f64>::new, crate::stubs::planner_new)]
     #[kani::stub(realfft::RealFftPlanner::<f64>::plan_fft_forward, crate::stubs::plan_fwd)]
     #[kani::stub(realfft::RealFftPlanner::<f64>::plan_fft_inverse, crate::stubs::plan_inv)]
     #[kani::stub(rubato::sinc::make_sincs, crate::stubs::make_sincs_unit)]
-    fn c11_ftio_sym(nd) {
+    fn c11_ftio_ch1(nd) {
         let mk = |c| FftFixedInOut::<f64>::new(2, 3, 2, c).unwrap();
-        let (mut m, mut s0, mut s1) = (mk(2), mk(1), mk(1));
+        let (mut m, mut s) = (mk(2), mk(1));
         // two calls: the second exercises the per-channel overlap buffers
-        multi_vs_single!(nd, m, s0, s1, f64, 2, 3, sym);
-        multi_vs_single!(nd, m, s0, s1, f64, 2, 3, line);
-        forget(m); forget(s0); forget(s1);
+        multi_vs_single!(nd, m, s, 1, f64, 2, 3, sym);
+        multi_vs_single!(nd, m, s, 1, f64, 2, 3, line);
+        forget(m); forget(s);
     }
     #[kani::unwind(12)]
     #[kani::stub(realfft::RealFftPlanner::<f64>::new, crate::stubs::planner_new)]
     #[kani::stub(realfft::RealFftPlanner::<f64>::plan_fft_forward, crate::stubs::plan_fwd)]
     #[kani::stub(realfft::RealFftPlanner::<f64>::plan_fft_inverse, crate::stubs::plan_inv)]
     #[kani::stub(rubato::sinc::make_sincs, crate::stubs::make_sincs_unit)]
-    fn c11_fto_line(nd) {
+    fn c11_fto_ch1(nd) {
         let mk = |c| FftFixedOut::<f64>::new(2, 3, 4, 1, c).unwrap();
-        let (mut m, mut s0, mut s1) = (mk(2), mk(1), mk(1));
-        multi_vs_single!(nd, m, s0, s1, f64, 4, 4, line);
-        forget(m); forget(s0); forget(s1);
+        let (mut m, mut s) = (mk(2), mk(1));
+        multi_vs_single!(nd, m, s, 1, f64, 4, 4, line);
+        forget(m); forget(s);
     }
     #[kani::unwind(12)]
     #[kani::stub(realfft::RealFftPlanner::<f64>::new, crate::stubs::planner_new)]
     #[kani::stub(realfft::RealFftPlanner::<f64>::plan_fft_forward, crate::stubs::plan_fwd)]
     #[kani::stub(realfft::RealFftPlanner::<f64>::plan_fft_inverse, crate::stubs::plan_inv)]
     #[kani::stub(rubato::sinc::make_sincs, crate::stubs::make_sincs_unit)]
-    fn c11_fti_line(nd) {
+    fn c11_fti_ch0(nd) {
         let mk = |c| FftFixedIn::<f64>::new(2, 3, 4, 1, c).unwrap();
-        let (mut m, mut s0, mut s1) = (mk(2), mk(1), mk(1));
-        multi_vs_single!(nd, m, s0, s1, f64, 4, 6, line);
-        forget(m); forget(s0); forget(s1);
+        let (mut m, mut s) = (mk(2), mk(1));
+        multi_vs_single!(nd, m, s, 0, f64, 4, 6, line);
+        forget(m); forget(s);
     }
 
-    // vacuity witness (must FAIL): twins with different data
-    #[kani::unwind(10)]
+    // vacuity witness (must FAIL): the twin stands for the OTHER channel
+    #[kani::unwind(8)]
     fn c11_witness(nd) {
-        let mk = |c| FastFixedOut::<f64>::new(1.0, 1.5, PolynomialDegree::Nearest, 6, c).unwrap();
-        let (mut m, mut s0, mut s1) = (mk(2), mk(1), mk(1));
-        multi_vs_single!(nd, m, s1, s0, f64, 10, 6, line);
-        forget(m); forget(s0); forget(s1);
+        probe::reset_flags();
+        let mk = |c| SincFixedOut::<f64>::new_with_interpolator(1.0, 1.5, SincInterpolationType::Nearest, probe::boxed64(2, 1), 2, c).unwrap();
+        let (mut m, mut s) = (mk(2), mk(1));
+        let n = m.input_frames_next();
+        nd.assume(n <= 3);
+        let mut x0 = [0.0f64; 3];
+        let mut x1 = [0.0f64; 3];
+        crate::drive::fill_line(&mut x0[..], 0);
+        crate::drive::fill_line(&mut x1[..], 500);
+        let mut o0 = [SENT; 2];
+        let mut o1 = [SENT; 2];
+        let mut p = [SENT; 2];
+        let rm = m.process_into_buffer(&[&x0[..n], &x1[..n]], &mut [&mut o0[..], &mut o1[..]], None);
+        let rs = s.process_into_buffer(&[&x0[..n]], &mut [&mut p[..]], None);
+        check!(rm.is_ok() && rs.is_ok() && o1[1].to_bits() == p[1].to_bits(), "WITNESS.c11[base]");
+        forget(m); forget(s);
     }
 }
